@@ -29,7 +29,13 @@ def main():
     from replays import common as _C
     for it in items:
         try:
-            _C.clear_all_caches()
+            _C.reset_process_state()
+            for h in it.get("history") or []:
+                # a recorded call history: the same observation on other inputs, earlier in this process, nothing reset in between
+                try:
+                    mod.observe(h["spec"], h["inputs"])
+                except Exception:   # noqa
+                    pass
             o = mod.observe(it["spec"], it["inputs"])
             if it.get("ob") is None and "predicted" in it:
                 # translator validation: report the real outputs, and let the independent concrete oracle judge them as well
@@ -43,6 +49,28 @@ def main():
             out.append({"outputs": o, "violated": bool(v), "msg": msg})
         except Exception as e:   # noqa
             out.append({"error": "".join(traceback.format_exception(type(e), e, e.__traceback__))[-2000:]})
+    # ---- second pass over the validation items: the same observations again, in groups, WITHOUT resetting anything between the members of
+    # a group and in reversed order. Every answer is judged by the same concrete oracle; an answer that is right in a fresh process and wrong
+    # after the library was used on look-alike inputs (shared memo tables, caches keyed by too little) is a reproduced violation; the group
+    # members that ran before it are recorded as its call history, so the replay file reproduces it
+    GROUP = int(os.environ.get("VERIF_HISTORY_GROUP", "12"))
+    vidx = [i for i, it in enumerate(items) if it.get("ob") is None and "predicted" in it and not it.get("history") and "error" not in out[i]
+            and not out[i].get("violated")]
+    for g0 in range(0, len(vidx), GROUP):
+        grp = list(reversed(vidx[g0:g0 + GROUP]))
+        try:
+            _C.reset_process_state()
+        except Exception:   # noqa
+            continue
+        for pos, i in enumerate(grp):
+            it = items[i]
+            try:
+                o2 = mod.observe(it["spec"], it["inputs"])
+                v2, msg2 = mod.judge(it["spec"], it["inputs"], o2, "validation")
+            except Exception:   # noqa
+                continue
+            if v2 and pos > 0:
+                out[i]["history_violation"] = {"outputs": o2, "msg": msg2, "history": [{"spec": items[j]["spec"], "inputs": items[j]["inputs"]} for j in grp[:pos]]}
     sys.stdout = real_stdout
     json.dump(out, sys.stdout, default=str)
 
